@@ -23,3 +23,5 @@ require (
 replace github.com/containerd/nri => /repo
 
 replace github.com/containerd/ttrpc => /verif/.build/ttrpc
+
+replace github.com/opencontainers/runtime-tools v0.9.0 => github.com/opencontainers/runtime-tools v0.0.0-20221026201742-946c877fa809
